@@ -22,6 +22,8 @@ def main():
         else:
             f, old, new = sys.argv[3], sys.argv[4], sys.argv[5]
             tier = sys.argv[6] if len(sys.argv) > 6 else "quick"
+            if os.path.isabs(f):  # never the tree itself: paths are relative to the scratch worktree
+                f = os.path.relpath(f, "/repo")
             p = os.path.join(wt, f)
             s = open(p).read()
             if s.count(old) != 1:
